@@ -18,6 +18,10 @@ IsNamed(n) == n \in DOMAIN NamedColour
 \* ---- rgb(): integers are themselves; percentages in tenths of a percent (0..1000)
 PctChan(p10) == RoundHalfSet(p10 * 255, 1000)
 RgbPct(p) == <<PctChan(p[1]), PctChan(p[2]), PctChan(p[3])>>
+\* percentages with five decimals (N = percent * 10^5, 0..10^7): the channel is N * 255 / 10^7 = N * 51 / (2 * 10^6);
+\* N * 51 <= 5.1 * 10^8 keeps the nearest-byte decision exact in 32 bits (values a hair off a rounding tie are decided)
+PctChan5(n) == RoundHalfSet(n * 51, 2000000)
+RgbPct5(p) == <<PctChan5(p[1]), PctChan5(p[2]), PctChan5(p[3])>>
 
 \* ---- hsl(): H any integer number of degrees, S and L in tenths of a percent (0..1000)
 \* CSS Color 3, 4.2.4: m2 = l<=.5 ? l*(s+1) : l+s-l*s ; m1 = 2l-m2 ; units of 10^-6
